@@ -129,6 +129,16 @@ def float_eval(dentries, dobs, gq, t, field):
     g = R.from_quat(gq)
     t = np.array(t, dtype=float)
     f = magpy.getB if field == "B" else magpy.getH
+    if dobs["kind"] == "array-own-anchor":
+        # ONE collection with a static own pose, rotated about its own position (anchor=None): for the
+        # whole tree this is the rigid motion x -> g(x - c) + c + t
+        pts = np.array(dobs["points"], dtype=float)
+        c = np.array(dentries[0]["position"][0], dtype=float)
+        B0 = f(entries, pts, squeeze=False)
+        entries[0].rotate(g)
+        entries[0].move(t)
+        B1 = f(entries, g.apply(pts - c) + c + t, squeeze=False)
+        return g.apply(B0.reshape(-1, 3)).reshape(B0.shape), B1
     if dobs["kind"] == "array":
         pts = np.array(dobs["points"], dtype=float)
         B0 = f(entries, pts, squeeze=False)
@@ -248,6 +258,8 @@ def shrink_float(dentries, dobs, gq, t, field, bad_index):
     cur = [dentries[bad_index]]
     if not bad(cur):
         return dentries
+    if dobs["kind"] == "array-own-anchor":
+        return cur
     d = cur[0]
     while d["class"] == "Collection":
         nxt = None
@@ -273,9 +285,10 @@ def float_search(ctx, n):
     rng = ctx.rng
     worst = 0.0
     for _ in range(n):
-        entries, desc = l2b.real_setup(rng)
+        nested = rng.random() < 0.12
+        entries, desc = l2b.nested_setup(rng) if nested else l2b.real_setup(rng)
         field = rng.choice(["B", "H"])
-        if rng.random() < 0.5:
+        if nested or rng.random() < 0.5:
             dobs = {"kind": "array", "points": [l2b.rvec(rng, -5, 5) for _ in range(rng.randint(1, 4))]}
         else:
             sens = []
@@ -290,9 +303,13 @@ def float_search(ctx, n):
         t = l2b.rvec(rng, -3, 3)
         dentries = [l2b.dump_obj(e) for e in entries]
         devs, err = float_dev(dentries, dobs, gq, t, field)
-        form = "covariant-observers" if dobs["kind"] == "array" else "invariant-sensors"
+        if dobs["kind"] == "array" and len(dentries) == 1 and dentries[0]["class"] == "Collection" and rng.random() < 0.6:
+            dobs = dict(dobs, kind="array-own-anchor")
+            devs, err = float_dev(dentries, dobs, gq, t, field)
+            ctx.bump("float:collection-rotated-about-own-position")
+        form = "covariant-observers" if dobs["kind"].startswith("array") else "invariant-sensors"
         ctx.case(("float", form, field, tuple(desc), repr(gq), repr(t)), True)
-        if dobs["kind"] == "array":
+        if dobs["kind"].startswith("array"):
             frame_search_one(ctx, dentries, dobs["points"], field)
         ctx.bump("float:" + form)
         for k in desc:
@@ -306,9 +323,13 @@ def float_search(ctx, n):
         bi = 0 if err is not None else int(np.argmax(devs))
         small = shrink_float(dentries, dobs, gq, t, field, bi)
         pk = "static" if max(len(d["position"]) for d in small) == 1 and (
-            dobs["kind"] == "array" or all(len(s["position"]) == 1 for s in dobs["sensors"])) else "path"
+            dobs["kind"].startswith("array") or all(len(s["position"]) == 1 for s in dobs["sensors"])) else "path"
         what = acceptable(small, dobs, gq, t, field) or err or f"deviation {max(devs):.2e}"
-        ctx.impl_fail(f"{form}/{'raises:' if err else ''}{'+'.join(leaf_class(d) for d in small)}:{pk}", what,
+        trig = '+'.join(leaf_class(d) for d in small) + ":" + pk
+        if dobs["kind"] == "array-own-anchor":
+            nested_c = any(c["class"] == "Collection" for c in small[0].get("children", []))
+            trig = "Collection:rotate-about-own-position" + (":nested" if nested_c else "")
+        ctx.impl_fail(f"{form}/{'raises:' if err else ''}{trig}", what,
                       {"kind": "float", "entries": small, "observers": dobs, "g_quat": gq, "t": t, "field": field})
     ctx.extra["float_worst_relative_deviation"] = worst
 
